@@ -295,7 +295,7 @@ pub fn generate(seed: u64, w: &World, with_big: bool, with_stalls: bool) -> Valu
         // relative through a sub-directory; and the environment the tool starts in
         "output_form": *rng.pick(&["abs", "abs", "rel", "rel-sub"]),
         // the file name itself: with, without and with an unusual extension, hidden
-        "output_name": *rng.pick(&["out.json", "out.json", "schema", "schema.v2.txt", ".schema", "introspection.JSON", "sch@E9@ma.json"]),
+        "output_name": *rng.pick(&["out.json", "out.json", "schema", "schema.v2.txt", ".schema", "introspection.JSON", "sch@E9@ma.json", "LONGNAME"]),
         // order of the options on the command line and `--opt value` vs `--opt=value`
         "arg_order": if rng.chance(1, 2) { rng.next_u64() >> 12 } else { 0 },
         "arg_forms": rng.next_u64() & 0x7ff,
@@ -304,9 +304,9 @@ pub fn generate(seed: u64, w: &World, with_big: bool, with_stalls: bool) -> Valu
         // ... or a directory; or the file system refuses to let the file grow beyond
         // `fsize_limit` bytes (RLIMIT_FSIZE with SIGXFSZ ignored: the write that crosses the limit
         // is cut short, the next one fails with EFBIG - a full disk in miniature)
-        "sink": match rng.below(50) { 0 | 1 => "dev-full", 2 => "is-dir", 3 | 4 => "fsize", _ => "normal" },
+        "sink": match rng.below(50) { 0 | 1 => "dev-full", 2 => "is-dir", 3 | 4 => "fsize", 5 => "dev-null", 6 => "dev-stdout", _ => "normal" },
         "fsize_limit": *rng.pick(&[0u64, 1, 100, 4096, 8192, 65536]),
-        "env": *rng.pick(&["clean", "clean", "rust-log-trace", "rust-log-cli-info", "locale-tz", "rust-log-trace"]),
+        "env": *rng.pick(&["clean", "clean", "rust-log-trace", "rust-log-cli-info", "locale-tz", "rust-log-trace", "flag-like-vars"]),
         "fixture": fx.name,
         "script": script,
     })
